@@ -2,6 +2,7 @@ import SamplyModel.Lemmas.PanicKernels
 import SamplyModel.Lemmas.C08Tied
 import SamplyModel.Lemmas.BreakpadServe
 import SamplyModel.Lemmas.JsonText
+import SamplyModel.Lemmas.SymindexBridge
 import SamplyModel.Props.C10
 import SamplyModel.Props.C07
 /-!
@@ -260,6 +261,18 @@ theorem C08_linebuffer_total_tied (chunks : List (List UInt8)) :
     (LB.finish (LB.consumeAll LB.St.init chunks).1).isSome = true := by
   have h := C08T.consumeAll_inv LB.St.init chunks (by simp [LB.Inv, LB.St.init])
   exact ⟨by simpa [LB.consumeSafe, LB.Inv] using h, C08T.finish_isSome _ h⟩
+
+/-- **`parse_symindex_file`: the panic kernel is C10's byte-exact parser, and the oracle bit is gone.** With the
+module-info oracle bit of `PK.parseSymindex` instantiated by C10's *model* of the module-info parse
+(`C08T.modOk`: fresh `LineBuffer`, `module_line`, UTF-8 and `DebugId` checks as modelled in `BP.deriveModule`),
+the kernel accepts exactly the files `BP.parseSymindex` accepts, with the same module-info length and the same
+three counts — and is never `panic` — for ARBITRARY file contents. So the five `from_bytes(..).unwrap()`s and the
+four `checked_mul`s of index.rs:40-164 are unreachable-as-panics on a model that C10's and C08's runs both compare
+with the real parser (`symindex` prints `models-disagree` otherwise). -/
+theorem C08_symindex_kernel_is_tied (data : List UInt8) :
+    C08T.okPart (parseSymindex data (C08T.modOk data)) = (BP.parseSymindex data).map C08T.summary ∧
+    parseSymindex data (C08T.modOk data) ≠ .panic :=
+  C08T.parseSymindex_bridge data
 
 /-- **`serialize_to_bytes` layout arithmetic, tied and exact.** For every index value, the `u32` computation of
 index.rs:166-182 (every step an explicit `panic` in `PK.symindexLayout`) succeeds exactly when the total length
